@@ -7,6 +7,8 @@ A = "self._active_state_nodes"
 
 
 def register(w):
+    register_guards(w)
+
     @w.contract(BI + "_select_transitions", props=["C02", "C16"])
     def _(c):
         c.bounded_only = True
@@ -27,3 +29,16 @@ def register(w):
         c.param("state_node", Node).returns(BOOL)
         c.req("state_node != None")
         c.ens(f"implies(legal({A}), result == spec_done(state_node, {A}))", label="done-as-stated")
+
+
+def register_guards(w):
+    from pyvc.sorts import BOOL, OPAQUE
+    from specs.xsm import Ev, Guard
+    BI = "xstate_statemachine.base_interpreter:BaseInterpreter."
+
+    @w.contract(BI + "_is_guard_satisfied", props=["C06", "C02"])
+    def _(c):
+        c.bounded_only = True
+        c.param("guard", Guard).param("event", Ev).returns(BOOL)
+        c.ens("result == spec_guard_value(self, guard, event)", label="guard-value-as-stated")
+        c.may_raise("ImplementationMissingError", when="spec_guard_value(self, guard, event) == 'missing'")
